@@ -167,11 +167,24 @@ func phoenixModel(id int) (string, bool) {
 }
 
 func suiteC13(s *Sink) {
+	suiteC13pass(s, "")
+	// the same coherence after a caller has edited a map it obtained earlier (histories of lookups)
+	m := veproduct.GetStringMap()
+	delete(m, 0x204)
+	m[0x1234] = "inserted"
+	m[0xA389] = "my shunt"
+	suiteC13pass(s, " mut:stringmap-edited")
+}
+
+func suiteC13pass(s *Sink, mut string) {
 	sm := veproduct.GetStringMap()
 	for id := 0; id < 65536; id++ {
+		if mut != "" && !veproduct.Product(id).Exists() && id%257 != 0 && id != 0x1234 {
+			continue
+		}
 		p := veproduct.Product(id)
 		mv, inMap := sm[p]
-		op := fmt.Sprintf("PR %d", id)
+		op := fmt.Sprintf("PR %d%s", id, mut)
 		out := fmt.Sprintf("%s|%s|%d|%s|%d|%d|%s|%s", b01(p.Exists()), hexS(p.Model()), int(p.Type()), hexS(p.String()), p.MaxPanelVoltage(), p.MaxPanelCurrent(), b01(inMap), hexS(mv))
 		tag := "unknown-id"
 		if p.Exists() {
@@ -221,6 +234,9 @@ func suiteC13(s *Sink) {
 		} else if p.String() != "" || p.MaxPanelVoltage() != -1 || p.MaxPanelCurrent() != -1 {
 			viol("unknown id with a display string or panel numbers")
 		}
+	}
+	if mut != "" {
+		return
 	}
 	for t := 0; t < 256; t++ {
 		ty := veproduct.Type(t)
